@@ -10,32 +10,27 @@ fn main() {
     let count: u64 = a[3].parse().unwrap();
     let first: u64 = a.get(5).map_or(0, |s| s.parse().unwrap());
     let mut w = std::io::BufWriter::new(std::fs::File::create(&a[4]).unwrap());
-    if fam == "table" {
-        // deterministic enumeration; indices past the end produce nothing
-        for i in first..first + count {
-            if let Some(c) = gen::table_case(i) {
-                writeln!(w, "CASE table-{i}").unwrap();
+    // deterministic enumerations: case index = (first + t * stride) mod size; indices are never
+    // skipped silently (a stride coprime to the size visits every index)
+    let stride: u64 = a.get(6).map_or(1, |s| s.parse().unwrap());
+    let det: Option<(u64, fn(u64) -> Option<gen::Case>)> = match fam.as_str() {
+        "table" => Some((gen::table_size(), gen::table_case)),
+        "exh" => Some((gen::exh_size(), gen::exh_case)),
+        "opx" => Some((gen::opx_size(), gen::opx_case)),
+        _ => None,
+    };
+    if let Some((size, f)) = det {
+        for t in 0..count {
+            let i = if stride == 1 { first + t } else { (first + t.wrapping_mul(stride)) % size };
+            if let Some(c) = f(i) {
+                writeln!(w, "CASE {fam}-{i}").unwrap();
                 for l in c.lines {
                     writeln!(w, "{l}").unwrap();
                 }
             }
         }
         if a.get(5).is_none() {
-            eprintln!("table size {}", gen::table_size());
-        }
-        return;
-    }
-    if fam == "exh" {
-        for i in first..first + count {
-            if let Some(c) = gen::exh_case(i) {
-                writeln!(w, "CASE exh-{i}").unwrap();
-                for l in c.lines {
-                    writeln!(w, "{l}").unwrap();
-                }
-            }
-        }
-        if a.get(5).is_none() {
-            eprintln!("exh size {}", gen::exh_size());
+            eprintln!("{fam} size {size}");
         }
         return;
     }
